@@ -1,10 +1,10 @@
 CONSTANTS
  Users = {"u1", "u2"}
  Paths = {"l1", "l2"}
- MaxOps = 6
+ MaxOps = 4
  Emit = FALSE
  PageSizes = {0, 1}
- ClearPerPage = FALSE
+ ClearPerPage = TRUE
 SPECIFICATION Spec
 VIEW View
 INVARIANT AtMostOneOwner
